@@ -164,7 +164,7 @@ func (t *textFlow) walkLookup(lk *ssa.Lookup, d int) {
 func (t *textFlow) walkCall(cl *ssa.Call, idx int, d int) {
 	c := t.c
 	name := calleeFullName(&cl.Call)
-	if cal := cl.Call.StaticCallee(); cal != nil && c.InModule(cal) && cal.Blocks != nil {
+	if cal := calleeOf(&cl.Call); cal != nil && c.InModule(cal) && cal.Blocks != nil {
 		for _, r := range returnsOf(cal) {
 			if idx < len(r.Results) {
 				t.walk(r.Results[idx], d+1)
